@@ -438,7 +438,10 @@ func loopHeaderOf(b *ssa.BasicBlock) *ssa.BasicBlock {
 // checkPerBlockRebuild: an in-memory table of a one-per-node object that BeginBlock re-creates is re-created on every
 // path of the function that refills it (a conditional reset keeps the previous block's content on some paths, which a
 // restarted node does not have).
-func checkPerBlockRebuild(r *Run) {
+func checkPerBlockRebuild(r *Run) { checkPerBlockRebuildAs(r, "C08.rebuild", "") }
+
+// checkPerBlockRebuildAs: rule name and optional receiver type filter (C10 re-uses the rule for the validator store).
+func checkPerBlockRebuildAs(r *Run, rule, onlyType string) {
 	p := r.P
 	roots := p.Roots()
 	reach, _ := p.Reach(roots["begin"])
@@ -449,12 +452,16 @@ func checkPerBlockRebuild(r *Run) {
 	}
 	singles := singletonTypes(p)
 	n := 0
+	rebuilders := map[*ssa.Function]string{}
 	for _, fn := range sortedFns(reach) {
 		if fn.Blocks == nil || !inRepo(fn) || fn.Signature.Recv() == nil || len(fn.Params) == 0 {
 			continue
 		}
 		rt := derefT(fn.Signature.Recv().Type())
 		if !singles[tname(rt)] && !singles[strings.TrimPrefix(tname(rt), "*")] {
+			continue
+		}
+		if onlyType != "" && strings.TrimPrefix(tname(rt), "*") != onlyType {
 			continue
 		}
 		fn := fn
@@ -484,6 +491,7 @@ func checkPerBlockRebuild(r *Run) {
 				return
 			}
 			n++
+			rebuilders[fn] = pa.FieldString()
 			first := fn.Blocks[0].Instrs[0]
 			bad := false
 			if first != ssa.Instruction(st) {
@@ -493,11 +501,13 @@ func checkPerBlockRebuild(r *Run) {
 					}
 				}
 			}
-			r.Check(!bad, "C08.rebuild", fname(fn), pa.FieldString()+" is re-created on every path", "no return before the reset",
+			r.Check(!bad, rule, fname(fn), pa.FieldString()+" is re-created on every path", "no return before the reset",
 				"the per-block table "+pa.FieldString()+" is reset on some paths of "+fname(fn)+" only: on the other paths a running node keeps the previous block's content, a restarted node starts empty, and their results differ from that block on", p.ipos(st))
 		})
 	}
 	if n < 2 {
-		fail("C08.rebuild: only %d per-block resets found", n)
+		fail("%s: only %d per-block resets found", rule, n)
 	}
+	checkHookMapsRecreated(r, rule, onlyType)
+	checkRebuildersCalled(r, rule, rebuilders, reach)
 }
